@@ -363,6 +363,14 @@ impl Router {
         }
 
         let connection_id = self.connections.insert(connection);
+        // the subscriptions of a resumed session are this connection's from now on: an
+        // UNSUBSCRIBE looks them up under its id
+        for filter in self.connections[connection_id].subscriptions.iter() {
+            self.subscription_map
+                .entry(filter.clone())
+                .or_default()
+                .insert(connection_id);
+        }
         assert_eq!(self.ibufs.insert(incoming), connection_id);
         assert_eq!(self.obufs.insert(outgoing), connection_id);
 
